@@ -65,6 +65,9 @@ def c04(ctx):
     eam.run(ctx)
     eam.pre_valid(ctx)
     eam.m_tgt(ctx)
+    from .rules import validity, dml
+    validity.info_valid(ctx)
+    dml.gate1(ctx)
     return ctx.finish(explanation="interprocedural error-after-mutation path rule over the CFGs of the 11 entry functions, with every frozen exception "
                       "backed by a mechanical pre-validation rule; frame condition on the stream each DML statement rewrites. Byte equality after a "
                       "rejected call is not decided")
@@ -177,6 +180,7 @@ def c11(ctx):
     prog = ctx.prog
     streams.run(ctx)
     streams.name4(ctx)
+    streams.b64_tables(ctx)
     inv = inventory(prog)
     ctx.rule("PANIC(streams)", PANIC_TEXT)
     pat = re.compile(r"Package::<F>::(has_stream|streams|read_stream|write_stream|remove_stream|remove_digital_signature|has_digital_signature)$|"
@@ -216,6 +220,10 @@ def c01(ctx):
     flush.flush1(ctx)
     codec.cell_codec(ctx)
     codec.pool_codec(ctx)
+    from .rules import schema, streams
+    schema.table_bits(ctx)
+    schema.bits_disjoint(ctx)
+    streams.b64_tables(ctx)
     return ctx.finish(explanation="structural necessary conditions of persistence: dirty-flag discipline, finisher arming, the three close paths, the "
                       "finisher's completeness and ordering, flush-before-drop, reader/writer symmetry of the cell and pool codecs, and the "
                       "reader's long-string escape never being emitted for a live entry. Equality of reopened values is not decided")
@@ -256,8 +264,9 @@ def c02(ctx):
     schema.table_bits(ctx)
     schema.gate_opt(ctx)
     schema.ins1(ctx)
-    from .rules import propset
+    from .rules import propset, streams
     propset.run(ctx)
+    streams.b64_tables(ctx)
     return ctx.finish(explanation="reader-side structure: cell widths, offset-binary constants, column-major nesting, reference-width threading, pool header bit and long-string escape, "
                       "type-word masks and the 1-byte integer quirk, optional catalog streams, repeated-key rejection. That decoded values equal a foreign generator's is not decided")
 
@@ -289,6 +298,10 @@ def c05(ctx):
     dml.gate2(ctx)
     validity.info_valid(ctx)
     dml.ord1(ctx)
+    dml.del_only_retain(ctx)
+    dml.pairs(ctx)
+    from .rules import flush
+    flush.dirty1(ctx)
     schema.ins1(ctx, fns=("msi::internal::query::Insert::exec",), floor=3)
     return ctx.finish(explanation="necessary conditions for unique, ordered keys and valid cells: key awareness of every function that creates cells and rewrites rows, "
                       "duplicate tests before the keyed inserts, validation before creation, key-ordered emission. The invariant over all histories is not decided")
@@ -302,6 +315,8 @@ def c08(ctx):
     flush.dirty1(ctx)
     flush.dirty2(ctx)
     flush.close2(ctx)
+    from .rules import eam
+    eam.run(ctx)
     codec.pool_codec(ctx)
     codec.cell_codec(ctx)
     codec.codec_e(ctx)
